@@ -14,7 +14,7 @@ import signal
 from types import SimpleNamespace
 from typing import List
 
-from engine.harness_api import Ob, setup, kf_ok, pick
+from engine.harness_api import Ob, setup, kf_ok, pick, ns
 setup(shim=False)
 
 import gunicorn.arbiter as A  # noqa: E402
@@ -59,7 +59,7 @@ def murder(ages: List[int], aborted: List[bool], now: int, timeout: int) -> bool
         w.aborted = aborted[i]
         w.tmp = SimpleNamespace(last_update=(lambda a=ages[i]: a), close=lambda: None)
     undo = KS.install(A, K)
-    A.time = SimpleNamespace(monotonic=lambda: now, time=lambda: now, sleep=lambda s: None)
+    A.time = ns("A.time", monotonic=lambda: now, time=lambda: now, sleep=lambda s: None)
     try:
         arb.murder_workers()
     finally:
@@ -98,7 +98,7 @@ def murder_twin(ages: List[int], aborted: List[bool], now: int, timeout: int) ->
         w.aborted = aborted[i]
         w.tmp = SimpleNamespace(last_update=(lambda a=ages[i]: a), close=lambda: None)
     undo = KS.install(A, K)
-    A.time = SimpleNamespace(monotonic=lambda: now, time=lambda: now, sleep=lambda s: None)
+    A.time = ns("A.time", monotonic=lambda: now, time=lambda: now, sleep=lambda s: None)
     try:
         arb.murder_workers()
     finally:
@@ -127,13 +127,13 @@ def boot_hang(wall: int, t0: int, timeout: int, d: int, notified: bool) -> bool:
     def utime(fd, times):
         mtime[fd] = times[1]
     saved = (WT.os, WT.tempfile, WT.util, WT.time)
-    WT.os = SimpleNamespace(umask=lambda m: 0o22, geteuid=lambda: 0, getegid=lambda: 0, utime=utime,
+    WT.os = ns("WT.os", umask=lambda m: 0o22, geteuid=lambda: 0, getegid=lambda: 0, utime=utime,
                             fstat=lambda fd: SimpleNamespace(st_mtime=mtime[fd]), close=lambda fd: None,
                             fdopen=lambda fd, m, b: SimpleNamespace(fileno=lambda: fd, close=lambda: None),
                             path=SimpleNamespace(isdir=lambda p: True))
-    WT.tempfile = SimpleNamespace(mkstemp=mkstemp)
-    WT.util = SimpleNamespace(chown=lambda *a: None, unlink=lambda n: None)
-    WT.time = SimpleNamespace(monotonic=lambda: mono[0])
+    WT.tempfile = ns("WT.tempfile", mkstemp=mkstemp)
+    WT.util = ns("WT.util", chown=lambda *a: None, unlink=lambda n: None)
+    WT.time = ns("WT.time", monotonic=lambda: mono[0])
     K = KS.Kernel()
     arb = mk_arbiter(K, 1, timeout=timeout, ages=[1])
     pid = K.order[0]
@@ -146,7 +146,7 @@ def boot_hang(wall: int, t0: int, timeout: int, d: int, notified: bool) -> bool:
         last = mono[0]
         mono[0] = last + timeout + d        # ... and nothing since, for longer than the timeout
         undo = KS.install(A, K)
-        A.time = SimpleNamespace(monotonic=lambda: mono[0], time=lambda: mono[0], sleep=lambda s: None)
+        A.time = ns("A.time", monotonic=lambda: mono[0], time=lambda: mono[0], sleep=lambda s: None)
         try:
             arb.murder_workers()
         finally:
@@ -165,13 +165,14 @@ def latency(n: int, who: int, h: int, stubborn: bool) -> bool:
     """
     n = pick(n, 1, CASE["n"])
     who = pick(who, 0, n - 1)
+    h = pick(h, 0, 30)
     T = CASE["timeout"]                   # seconds
     K = KS.Kernel(budget=T + 8)
     K.hang = {who: h}
     K.stubborn = {who}                    # a hung worker does not react to TERM ...
     arb = mk_arbiter(K, n, timeout=T)
     undo = KS.install(A, K)
-    A.sock = SimpleNamespace(close_sockets=lambda l, u=True: None)
+    A.sock = ns("A.sock", close_sockets=lambda l, u=True: None)
     try:
         try:
             arb.run()
@@ -212,6 +213,7 @@ def latency_kill(n: int, who: int, h: int) -> bool:
     # the worker also ignores SIGABRT: KILL follows on the next scan, then it is reaped and replaced
     n = pick(n, 1, CASE["n"])
     who = pick(who, 0, n - 1)
+    h = pick(h, 0, 30)
     T = CASE["timeout"]
     K = KS.Kernel(budget=T + 9)
     K.hang = {who: h}
@@ -228,7 +230,7 @@ def latency_kill(n: int, who: int, h: int) -> bool:
     K.kill = kill
     arb = mk_arbiter(K, n, timeout=T)
     undo = KS.install(A, K)
-    A.sock = SimpleNamespace(close_sockets=lambda l, u=True: None)
+    A.sock = ns("A.sock", close_sockets=lambda l, u=True: None)
     try:
         try:
             arb.run()
@@ -329,8 +331,8 @@ def sync_gaps(tape: List[int]) -> bool:
     notes = []
     w, select = _sync_worker(timeout_s, notes, clock, CASE["listeners"], list(tape))
     saved = S.select, S.os
-    S.select = SimpleNamespace(select=select)
-    S.os = SimpleNamespace(getppid=lambda: 1, read=lambda fd, n: b"")
+    S.select = ns("S.select", select=select)
+    S.os = ns("S.os", getppid=lambda: 1, read=lambda fd, n: b"")
     try:
         w.run()
     except Assume:
@@ -355,8 +357,8 @@ def sync_gaps_twin(tape: List[int]) -> bool:
     notes = []
     w, select = _sync_worker(timeout_s, notes, clock, CASE["listeners"], list(tape))
     saved = S.select, S.os
-    S.select = SimpleNamespace(select=select)
-    S.os = SimpleNamespace(getppid=lambda: 1, read=lambda fd, n: b"")
+    S.select = ns("S.select", select=select)
+    S.os = ns("S.os", getppid=lambda: 1, read=lambda fd, n: b"")
     try:
         w.run()
     except Assume:
@@ -409,8 +411,8 @@ def gthread_gaps(tape: List[int]) -> bool:
                 clock[0] += d
         return SimpleNamespace(done=[], not_done=list(fs))
     saved = G.futures, G.os
-    G.futures = SimpleNamespace(wait=fwait, FIRST_COMPLETED="FIRST_COMPLETED")
-    G.os = SimpleNamespace(getppid=lambda: 1)
+    G.futures = ns("G.futures", wait=fwait, FIRST_COMPLETED="FIRST_COMPLETED")
+    G.os = ns("G.os", getppid=lambda: 1)
     try:
         w.run()
     except Assume:
